@@ -341,9 +341,10 @@ func scenario(run *lib.Run, hb *lib.Heartbeat, r *lib.RNG, idx int) {
 	for _, c := range conns {
 		if c.phase == "racing" {
 			racers.Add(1)
+			d := time.Duration(r.Intn(300)) * time.Microsecond
 			go func(c *conn) {
 				defer racers.Done()
-				time.Sleep(time.Duration(r.Sub(uint64(len(c.id))).Intn(300)) * time.Microsecond)
+				time.Sleep(d)
 				fmt.Fprintf(c.st.C, reqFmt, "/race", c.id)
 			}(c)
 		}
